@@ -86,6 +86,11 @@ CHECKS = {
                 text="Cli.tla: option vector (each option on the command line / in the config file / both) -> Reject | NoOutput | Run(params) with precedence, defaults and equivalences; CliImpl.tla: main() as a step machine with 'nothing written unless R says Run' "
                      "checked in every state; TLC enumerates the vectors (placements, pairs, validation table, walks); each runs the real main in a clean directory and, for Run, a direct anonymize_files(**params) reference; TLC judges outcome class and bytes.",
                 tech="TLA+ Cli (R) / CliImpl (M) model-checked; TLC-generated argument vectors run through the real main; TLC trace validation (CliTrace)"),
+    "C13": dict(cat="model_checking", ref="5/C13",
+                text="Process.tla: processes (hash seed, rng, module-level state), Construct, Run; R = the recorded <configuration, input> -> output relation is single-valued. TLC proves it for every history within the bounds with the three "
+                     "named deviations off and refutes it with each one on (non-vacuity; they are the three defects repaired in /repo). TLC-emitted histories are replayed with real interpreter processes under the history's PYTHONHASHSEEDs, "
+                     "plus the command line under five hash seeds and the no-salt case re-run with the reported salt; TLC (ProcessTrace) requires one digest per <configuration, input>.",
+                tech="TLA+ Process model-checked by TLC (with deviation configs for non-vacuity); TLC-generated histories replayed in real processes; TLC trace validation"),
 }
 
 NA_REASON = "check not built yet (work in progress; see DESIGN.md section 5)"
